@@ -1,6 +1,6 @@
 (* C08 — parameter provenance is complete, truthful and depth-ordered. *)
 From Sigtools.Model Require Import Base Bind Roles Algebra.
-From Sigtools.Proofs Require Import Prov ProvKeys ProvNoDup Contrib ContribEmbed ProvNoDupOps.
+From Sigtools.Proofs Require Import Prov ProvKeys ProvNoDup Contrib ContribEmbed ProvNoDupOps ContribMore ProvDepths.
 
 (* merge_depths keeps, for every callable, the smallest depth listed on either side *)
 Theorem C08_depths_min l r f :
@@ -161,4 +161,59 @@ Print Assumptions C08_merge_src_shape_rc.
 Theorem C08_merge_nested_nodup : forall (ss : list sigT) (r : sigT) (x : name), merge_nested ss = Ok r -> Forall (fun s : sigT => valid_sig (params s) = true) ss -> (forall j : nat, NoDup (src_get (srcs (nth j ss nosig)) x)) -> (forall (j k : nat) (f : N), j <> k -> In f (src_get (srcs (nth j ss nosig)) x) -> ~ In f (src_get (srcs (nth k ss nosig)) x)) -> NoDup (src_get (srcs r) x).
 Proof. exact @ProvNoDupOps.merge_nested_nodup. Qed.
 Print Assumptions C08_merge_nested_nodup.
+
+
+(* ---- n-ary embed list shapes under stars_apart; depths of whole operations in closed form (Proofs/ProvDepths.v);
+   the list shape of the plain n-ary merge fold is FALSE (known finding C08:nary-merge-duplicate) ---- *)
+Theorem C08_embed_src_shape : forall (s0 : sigT) (ss : list sigT) (uva uvk : bool) (r : sigT) (x : name), embed (s0 :: ss) uva uvk = Ok r -> Forall (fun s : sigT => valid_sig (params s) = true) (s0 :: ss) -> ProvKeys.stars_apart (s0 :: ss) = true -> ProvKeys.src_ok s0 -> Forall ProvKeys.src_nonempty ss -> src_get (srcs r) x = [] \/ (exists s : sigT, In s (s0 :: ss) /\ src_get (srcs r) x = src_get (srcs s) x).
+Proof. exact @ContribMore.embed_src_shape. Qed.
+Print Assumptions C08_embed_src_shape.
+
+Theorem C08_embed_nodup : forall (s0 : sigT) (ss : list sigT) (uva uvk : bool) (r : sigT) (x : name), embed (s0 :: ss) uva uvk = Ok r -> Forall (fun s : sigT => valid_sig (params s) = true) (s0 :: ss) -> ProvKeys.stars_apart (s0 :: ss) = true -> ProvKeys.src_ok s0 -> Forall ProvKeys.src_nonempty ss -> (forall s : sigT, In s (s0 :: ss) -> NoDup (src_get (srcs s) x)) -> NoDup (src_get (srcs r) x).
+Proof. exact @ContribMore.embed_nodup. Qed.
+Print Assumptions C08_embed_nodup.
+
+Theorem C08_merge_fold_shape_refuted : exists s1 s2 s3 s4 r : sigT, valid_sig (params s1) = true /\ valid_sig (params s2) = true /\ valid_sig (params s3) = true /\ valid_sig (params s4) = true /\ ProvKeys.src_ok s1 /\ ProvKeys.src_ok s2 /\ ProvKeys.src_ok s3 /\ ProvKeys.src_ok s4 /\ merge [s1; s2; s3; s4] = Ok r /\ names_of (params r) = [1] /\ src_get (srcs r) 1 = [100; 101; 100; 101] /\ ~ NoDup (src_get (srcs r) 1) /\ srcs s1 = [(1, [100]); (9, [100])] /\ srcs s2 = [(2, [101]); (1, [101])] /\ srcs s3 = [(9, [102])] /\ srcs s4 = [(3, [103])].
+Proof. exact @ContribMore.merge_fold_shape_refuted. Qed.
+Print Assumptions C08_merge_fold_shape_refuted.
+
+Theorem C08_merge_deps : forall (s0 : sigT) (ss : list sigT) (r : sigT), merge (s0 :: ss) = Ok r -> deps r = fold_left merge_depths (map deps ss) (deps s0).
+Proof. exact @ProvDepths.merge_deps. Qed.
+Print Assumptions C08_merge_deps.
+
+Theorem C08_merge_depth_of : forall (s0 : sigT) (ss : list sigT) (r : sigT) (f : N), merge (s0 :: ss) = Ok r -> dep_get (deps r) f = opt_min (dep_get (deps s0) f) (min_all (map deps ss) f).
+Proof. exact @ProvDepths.merge_depth_of. Qed.
+Print Assumptions C08_merge_depth_of.
+
+Theorem C08_embed_deps_spec : forall (s0 : sigT) (ss : list sigT) (uva uvk : bool) (r : sigT), embed (s0 :: ss) uva uvk = Ok r -> deps r = embed_deps (deps s0) ss 1.
+Proof. exact @ProvDepths.embed_deps_spec. Qed.
+Print Assumptions C08_embed_deps_spec.
+
+Theorem C08_embed2_deps : forall (o i : sigT) (uva uvk : bool) (r : sigT), embed [o; i] uva uvk = Ok r -> deps r = merge_depths (deps o) (dep_incr 1 (deps i)).
+Proof. exact @ProvDepths.embed2_deps. Qed.
+Print Assumptions C08_embed2_deps.
+
+Theorem C08_embed2_depth_of : forall (o i : sigT) (uva uvk : bool) (r : sigT) (f : N), embed [o; i] uva uvk = Ok r -> dep_get (deps r) f = opt_min (dep_get (deps o) f) (option_map (fun v : N => v + 1) (rmin (deps i) f)).
+Proof. exact @ProvDepths.embed2_depth_of. Qed.
+Print Assumptions C08_embed2_depth_of.
+
+Theorem C08_embed2_strictly_deeper : forall (o i : sigT) (uva uvk : bool) (r : sigT) (f v : N), embed [o; i] uva uvk = Ok r -> dep_get (deps o) f = None -> rmin (deps i) f = Some v -> dep_get (deps r) f = Some (v + 1) /\ v < v + 1.
+Proof. exact @ProvDepths.embed2_strictly_deeper. Qed.
+Print Assumptions C08_embed2_strictly_deeper.
+
+Theorem C08_embed_outer_depth_kept : forall (s0 : sigT) (ss : list sigT) (uva uvk : bool) (r : sigT) (f d : N), embed (s0 :: ss) uva uvk = Ok r -> dep_get (deps s0) f = Some d -> exists d' : N, dep_get (deps r) f = Some d' /\ d' <= d.
+Proof. exact @ProvDepths.embed_outer_depth_kept. Qed.
+Print Assumptions C08_embed_outer_depth_kept.
+
+Theorem C08_mask_deps : forall (s : sigT) (n : nat) (names0 : list name) (h : hideflags) (r : sigT), mask s n names0 h = Ok r -> deps r = deps s.
+Proof. exact @ProvDepths.mask_deps. Qed.
+Print Assumptions C08_mask_deps.
+
+Theorem C08_sig_partial_deps : forall (s : sigT) (n : nat) (kw : list (name * N)) (pobj : N) (r : sigT), sig_partial s n kw pobj = Ok r -> deps r = dep_set (dep_incr 1 (deps s)) pobj 0.
+Proof. exact @ProvDepths.sig_partial_deps. Qed.
+Print Assumptions C08_sig_partial_deps.
+
+Theorem C08_forwards_deps : forall (o i : sigT) (n : nat) (names0 : list name) (ha hk uva uvk pt : bool) (r : sigT), forwards o i n names0 ha hk uva uvk pt = Ok r -> deps r = merge_depths (deps o) (dep_incr 1 (deps i)).
+Proof. exact @ProvDepths.forwards_deps. Qed.
+Print Assumptions C08_forwards_deps.
 
